@@ -4,11 +4,14 @@ package main
 // bubble every call runs in, and the classification of what a call returned.
 
 import (
+	"bytes"
 	"context"
 	"crypto/sha256"
+	stdx509 "crypto/x509"
 	"encoding/asn1"
 	"encoding/hex"
 	"fmt"
+	"math/big"
 	"net/http"
 	"strings"
 	"testing"
@@ -31,6 +34,81 @@ type pkixExt = pkix.Extension
 type chainFix struct {
 	name  string
 	certs [][]byte
+	// ref: the RFC 6962 precert_entry of this chain, put together BY HAND from what the harness's
+	// PKI knows (see issuePre): the issuer key hash of the CA that really issues the final
+	// certificate and the TBSCertificate of that final certificate.  nil: not a precertificate
+	// chain of known provenance.
+	ref *entry
+	// alts: entries that a log (or a client) deriving the entry WRONGLY would come to: the key
+	// hash of another certificate of the chain, a TBSCertificate that still names the
+	// Precertificate Signing Certificate, the poisoned TBSCertificate
+	alts []altEntry
+}
+
+type altEntry struct {
+	name string
+	e    *entry
+}
+
+// tbsOf cuts the TBSCertificate out of a certificate with encoding/asn1 (no X.509 parser involved)
+func tbsOf(der []byte) []byte {
+	var outer, tbs asn1.RawValue
+	if rest, err := asn1.Unmarshal(der, &outer); err != nil || len(rest) != 0 || outer.Tag != 16 || !outer.IsCompound {
+		panic("c12: not a certificate")
+	}
+	if _, err := asn1.Unmarshal(outer.Bytes, &tbs); err != nil || tbs.Tag != 16 || !tbs.IsCompound {
+		panic("c12: no TBSCertificate")
+	}
+	return tbs.FullBytes
+}
+
+// keyHashOf: SHA-256 of the SubjectPublicKeyInfo a certificate carries, read with crypto/x509
+func keyHashOf(der []byte) ([]byte, bool) {
+	c, err := stdx509.ParseCertificate(der)
+	if err != nil {
+		return nil, false
+	}
+	h := sha256.Sum256(c.RawSubjectPublicKeyInfo)
+	return h[:], true
+}
+
+var preSerial int64 = 770000
+
+// issuePre issues a precertificate (the options plus the poison extension) signed by [signerCA],
+// and its FINAL-CERTIFICATE TWIN: the same options without the poison, the same serial number,
+// issued by [realCA] - the CA itself, or the CA above a Precertificate Signing Certificate.  RFC
+// 6962 s3.2: the precert_entry is the issuer key hash of the CA that issues the final certificate
+// and "the DER encoded TBSCertificate component of the Precertificate - that is, without the
+// signature and the poison extension [...] the Precertificate's issuer and Authority Key
+// Identifier changed to those of the final issuer": exactly the twin's TBSCertificate.  The
+// reference uses neither ct.MerkleTreeLeafFromRawChain nor x509.BuildPrecertTBS.
+func issuePre(o pki.Opts, signerCA, realCA *pki.Entity) (*pki.Entity, *entry) {
+	if o.Serial == nil {
+		preSerial++
+		o.Serial = big.NewInt(preSerial)
+	}
+	fo := o
+	po := o
+	po.ExtraExt = append(append([]pkixExt{}, o.ExtraExt...), pki.PoisonExt())
+	pre := pki.Issue(po, signerCA)
+	fin := pki.Issue(fo, realCA)
+	ikh, ok := keyHashOf(realCA.DER)
+	if !ok {
+		panic("c12: crypto/x509 does not parse the CA certificate")
+	}
+	return pre, &entry{precert: true, ikh: ikh, tbs: tbsOf(fin.DER)}
+}
+
+// altsOf: the wrong entries for a precertificate chain with reference [ref]
+func altsOf(certs [][]byte, ref *entry, more ...altEntry) []altEntry {
+	var out []altEntry
+	for k, c := range certs {
+		if h, ok := keyHashOf(c); ok && !bytes.Equal(h, ref.ikh) {
+			out = append(out, altEntry{fmt.Sprintf("issuer-key-hash-is-of-chain[%d]", k), &entry{precert: true, ikh: h, tbs: ref.tbs}})
+		}
+	}
+	out = append(out, altEntry{"tbs-still-poisoned", &entry{precert: true, ikh: ref.ikh, tbs: tbsOf(certs[0])}})
+	return append(out, more...)
 }
 
 type fixtures struct {
@@ -41,7 +119,8 @@ type fixtures struct {
 	inter   *pki.Entity
 	leaf    *pki.Entity
 	pre     *pki.Entity
-	quirks  []quirkFix // certificates / precertificates the parser accepts with a NON-fatal error
+	quirks  []quirkFix   // certificates / precertificates the parser accepts with a NON-fatal error
+	dated   []datedChain // chains whose head expires around the shard boundaries (multishard_test.go)
 }
 
 // quirkFix: a certificate and a precertificate carrying a tolerated quirk (x509.NonFatalErrors),
@@ -78,6 +157,7 @@ func quirkCandidates() []struct {
 }
 
 func buildQuirks(inter, root *pki.Entity) []quirkFix {
+	_ = root
 	var out []quirkFix
 	for i, q := range quirkCandidates() {
 		func() {
@@ -91,11 +171,11 @@ func buildQuirks(inter, root *pki.Entity) []quirkFix {
 				return
 			}
 			qf := quirkFix{name: q.name, cert: c.DER}
-			o.CN, o.ExtraExt = "pre-"+o.CN, append(o.ExtraExt, pki.PoisonExt())
-			p := pki.Issue(o, inter)
+			o.CN = "pre-" + o.CN
+			p, ref := issuePre(o, inter, inter)
 			qf.pre = p.DER
-			if e := deriveEntry([][]byte{p.DER, inter.DER, root.DER}, true); e != nil && parseClass(e.tbs, true) == "PNonFatal" {
-				qf.tbs = e
+			if parseClass(ref.tbs, true) == "PNonFatal" {
+				qf.tbs = ref
 			}
 			out = append(out, qf)
 		}()
@@ -111,9 +191,27 @@ func buildFixtures() *fixtures {
 	inter := pki.Issue(pki.Opts{CN: "c12 intermediate", IsCA: true, KeyIdx: 31}, root)
 	leaf := pki.Issue(pki.Opts{CN: "leaf.c12.example", KeyIdx: 32, DNSNames: []string{"leaf.c12.example"}}, inter)
 	leaf2 := pki.Issue(pki.Opts{CN: "other.c12.example", KeyIdx: 33, DNSNames: []string{"other.c12.example"}}, inter)
-	pre := pki.Issue(pki.Opts{CN: "pre.c12.example", KeyIdx: 34, ExtraExt: []pkixExt{pki.PoisonExt()}}, inter)
-	preIssuer := pki.Issue(pki.Opts{CN: "c12 pre-issuer", IsCA: true, KeyIdx: 35, EKUs: []x509.ExtKeyUsage{x509.ExtKeyUsageCertificateTransparency}}, inter)
-	pre2 := pki.Issue(pki.Opts{CN: "pre2.c12.example", KeyIdx: 36, ExtraExt: []pkixExt{pki.PoisonExt()}}, preIssuer)
+	pre, preRef := issuePre(pki.Opts{CN: "pre.c12.example", KeyIdx: 34}, inter, inter)
+	// Precertificate Signing Certificates (CA certificates with the CT extended key usage): one
+	// under the intermediate, one directly under the root
+	ctEKU := []x509.ExtKeyUsage{x509.ExtKeyUsageCertificateTransparency}
+	preIssuer := pki.Issue(pki.Opts{CN: "c12 pre-issuer", IsCA: true, KeyIdx: 35, EKUs: ctEKU}, inter)
+	preIssuerR := pki.Issue(pki.Opts{CN: "c12 pre-issuer under the root", IsCA: true, KeyIdx: 38, EKUs: ctEKU}, root)
+	// viaPI: a precertificate signed by the Precertificate Signing Certificate [pi] on behalf of
+	// [ca]; besides the reference entry, the entry a party would derive that took [pi] for an
+	// ordinary issuing CA (the twin issued by [pi] itself)
+	viaPI := func(o pki.Opts, pi, ca *pki.Entity) (*pki.Entity, *entry, []altEntry) {
+		preSerial++
+		o.Serial = big.NewInt(preSerial)
+		p, ref := issuePre(o, pi, ca)
+		_, asIssuer := issuePre(o, pi, pi)
+		return p, ref, []altEntry{
+			{"tbs-still-names-the-pre-issuer", &entry{precert: true, ikh: ref.ikh, tbs: asIssuer.tbs}},
+			{"entry-as-if-the-pre-issuer-were-the-issuer", asIssuer},
+		}
+	}
+	pre2, pre2Ref, pre2Alts := viaPI(pki.Opts{CN: "pre2.c12.example", KeyIdx: 36, DNSNames: []string{"pre2.c12.example"}}, preIssuer, inter)
+	pre3, pre3Ref, pre3Alts := viaPI(pki.Opts{CN: "pre3.c12.example", KeyIdx: 39}, preIssuerR, root)
 	f.root, f.inter, f.leaf, f.pre = root, inter, leaf, pre
 	f.quirks = buildQuirks(inter, root)
 	nt := 0
@@ -126,22 +224,52 @@ func buildFixtures() *fixtures {
 		panic(fmt.Sprintf("c12: only %d certificate quirks (%d with a quirky TBS) are non-fatal for the parser", len(f.quirks), nt))
 	}
 	f.chains = []chainFix{
-		{"x509-3", [][]byte{leaf.DER, inter.DER, root.DER}},
-		{"x509-1", [][]byte{leaf.DER}},
-		{"x509-other", [][]byte{leaf2.DER, inter.DER}},
-		{"pre-3", [][]byte{pre.DER, inter.DER, root.DER}},
-		{"pre-preissuer", [][]byte{pre2.DER, preIssuer.DER, inter.DER, root.DER}},
-		{"pre-noissuer", [][]byte{pre.DER}},
-		{"empty", nil},
-		{"garbage", [][]byte{[]byte("this is not a certificate")}},
+		{name: "x509-3", certs: [][]byte{leaf.DER, inter.DER, root.DER}},
+		{name: "x509-1", certs: [][]byte{leaf.DER}},
+		{name: "x509-other", certs: [][]byte{leaf2.DER, inter.DER}},
+		{name: "pre-3", certs: [][]byte{pre.DER, inter.DER, root.DER}, ref: preRef},
+		{name: "pre-preissuer", certs: [][]byte{pre2.DER, preIssuer.DER, inter.DER, root.DER}, ref: pre2Ref, alts: pre2Alts},
+		{name: "pre-noissuer", certs: [][]byte{pre.DER}},
+		{name: "empty"},
+		{name: "garbage", certs: [][]byte{[]byte("this is not a certificate")}},
+		// more chains through a Precertificate Signing Certificate: root left out; signing certificate directly under the root
+		{name: "pre-preissuer-no-root", certs: [][]byte{pre2.DER, preIssuer.DER, inter.DER}, ref: pre2Ref, alts: pre2Alts},
+		{name: "pre-preissuer-under-root", certs: [][]byte{pre3.DER, preIssuerR.DER, root.DER}, ref: pre3Ref, alts: pre3Alts},
 	}
 	for _, q := range f.quirks {
-		f.chains = append(f.chains, chainFix{"x509-quirk:" + q.name, [][]byte{q.cert, inter.DER, root.DER}})
+		f.chains = append(f.chains, chainFix{name: "x509-quirk:" + q.name, certs: [][]byte{q.cert, inter.DER, root.DER}})
 		if q.tbs != nil {
-			f.chains = append(f.chains, chainFix{"pre-quirk:" + q.name, [][]byte{q.pre, inter.DER, root.DER}})
+			f.chains = append(f.chains, chainFix{name: "pre-quirk:" + q.name, certs: [][]byte{q.pre, inter.DER, root.DER}, ref: q.tbs})
+		}
+	}
+	for i := range f.chains {
+		if c := &f.chains[i]; c.ref != nil {
+			c.alts = altsOf(c.certs, c.ref, c.alts...)
 		}
 	}
 	return f
+}
+
+// preIssuerChains: the chains that go through a Precertificate Signing Certificate
+func (f *fixtures) preIssuerChains() []chainFix {
+	return []chainFix{f.chain("pre-preissuer"), f.chain("pre-preissuer-no-root"), f.chain("pre-preissuer-under-root")}
+}
+
+// entryOf: the oracle "entry derived from the SUBMITTED chain and entry type".  WHETHER an entry can
+// be derived is the library's answer (deriveEntry); WHAT the entry is comes from the harness's
+// own knowledge wherever it has it: an X.509 entry is the first certificate as submitted, a
+// precertificate entry is the hand-made reference of the chain.
+func entryOf(ch chainFix, precert bool) *entry {
+	e := deriveEntry(ch.certs, precert)
+	switch {
+	case e == nil:
+		return nil
+	case !precert:
+		return &entry{cert: ch.certs[0]}
+	case ch.ref != nil:
+		return ch.ref
+	}
+	return e
 }
 
 func (f *fixtures) chain(name string) chainFix {
@@ -292,7 +420,9 @@ func (s *session) after() string {
 	return fmt.Sprintf(" after %d earlier call(s) on the same client [%s: %s]", len(s.trail), s.name, strings.Join(s.trail, "; "))
 }
 
-func newClient(sc *script, key *logKey, usePEM bool) *client.LogClient { return newClientRT(sc, key, usePEM) }
+func newClient(sc *script, key *logKey, usePEM bool) *client.LogClient {
+	return newClientRT(sc, key, usePEM)
+}
 
 func newClientRT(sc http.RoundTripper, key *logKey, usePEM bool) *client.LogClient {
 	opts := jsonclient.Options{Logger: quiet{}}
@@ -310,7 +440,9 @@ func newClientRT(sc http.RoundTripper, key *logKey, usePEM bool) *client.LogClie
 	return lc
 }
 
-func newTemporalClient(sc *script, key *logKey) *client.TemporalLogClient { return newTemporalClientRT(sc, key) }
+func newTemporalClient(sc *script, key *logKey) *client.TemporalLogClient {
+	return newTemporalClientRT(sc, key)
+}
 
 func newTemporalClientRT(sc http.RoundTripper, key *logKey) *client.TemporalLogClient {
 	shard := &configpb.LogShardConfig{Uri: logURI}
